@@ -135,8 +135,13 @@ def _trim_to_brackets(word: str) -> str:
     the link.
     """
     left = word.find("[")
-    right = word.rfind("]")
-    return word[left : right + 1] if 0 <= left < right else word
+    if left < 0:
+        return word
+    # '[[page]]' ends at the first ']]', every other link at the first ']'
+    # (so that '[[page]]]', the end of an inline property, is still [[page]]).
+    closer = "]]" if word.startswith("[[", left) else "]"
+    right = word.find(closer, left)
+    return word[left : right + len(closer)] if right > left else word
 
 
 def _is_local_link(word: str) -> bool:
